@@ -44,6 +44,8 @@ namespace ratio
         if (f.is_fact)
         { // we apply produce-predicate or the consume-predicate whenever the fact becomes active..
             set_ni(lit(atm.get_sigma()));
+            if (get_solver().is_impulse(atm)) // a predicate extending Produce / Consume can also be an impulse..
+                get_solver().get_impulse().apply_rule(atm);
             if (p_pred->is_assignable_from(atm.get_type()))
                 p_pred->apply_rule(atm);
             else
